@@ -106,7 +106,7 @@ def treeHashAtom (bytes : Bytes) : Bytes := sha256 ([1] ++ bytes)
 def treeHashPair (first rest : Bytes) : Bytes := sha256 ([2] ++ first ++ rest)
 
 /-- `PRECOMPUTED_HASHES` of more_ops.rs (extracted) -/
-def precomputed : List Bytes := Gen.precomputedHashes.map (·.map UInt8.ofNat)
+def precomputed : List Bytes := Gen.thPrecomputedHashes.map (·.map UInt8.ofNat)
 
 inductive TreeOp where
   | sexp (n : NTree)
@@ -151,7 +151,7 @@ def costedLoop (cpb costRemaining : Nat) (ops : List TreeOp) (hashes : List Byte
             | .error e => .error e
             | .ok b => costedLoop cpb costRemaining ops (treeHashAtom b :: hashes) cost
     | .pair _ left right =>
-      let cost := cost + Gen.sha256treePairCost
+      let cost := cost + Gen.thPairCost
       match checkCost cost costRemaining with
       | .error e => .error e
       | .ok () => costedLoop cpb costRemaining (.sexp right :: .sexp left :: .cons :: ops) hashes cost
@@ -167,13 +167,13 @@ decreasing_by
 /-- `tree_hash_costed(a, node, cost_remaining, flags)`: `(cost, hash)`; `newModel` is
 `flags.contains(NEW_COST_MODEL)`. -/
 def treeHashCosted (newModel : Bool) (costRemaining : Nat) (node : NTree) : Except Err (Nat × Bytes) :=
-  let cpb := if newModel then Gen.newSha256treeCostPerByte else Gen.sha256treeCostPerByte
-  match costedLoop cpb costRemaining [.sexp node] [] Gen.sha256treeBaseCost with
+  let cpb := if newModel then Gen.thNewCostPerByte else Gen.thCostPerByte
+  match costedLoop cpb costRemaining [.sexp node] [] Gen.thBaseCost with
   | .error e => .error e
   | .ok (hashes, cost) =>
     match hashes with
     | [h] =>
-      let cost := cost + Gen.mallocCostPerByte * Gen.sha256treeMallocBytes
+      let cost := cost + Gen.thMallocCostPerByte * Gen.thMallocBytes
       match checkCost cost costRemaining with
       | .error e => .error e
       | .ok () => .ok (cost, h)
